@@ -625,6 +625,7 @@ func runC18(c *fw.Check) {
 		c.Extra["flag_sets_"+et.Name] = len(sets)
 	}
 	c.Sample(map[string]interface{}{"type": "DISPFlag", "set": "DISPFlagLocalToUnit|DISPFlagDefinition|DISPFlagDeleted", "oracle": "value read back from the re-parsed DISubprogram equals the set"})
+	c18sideBySide(c)
 	c18aliasing(c)
 }
 
